@@ -67,6 +67,36 @@ DESC2 = {
  'C07_A': ('frame/writer.rs + frame/reader.rs', 'header-only frames no longer emitted/read when exactly HEADER_LEN bytes remain (both sides changed, empty entries differ)', 'an empty WAL entry starting with exactly 7 bytes left in a block'),
  'C07_B': ('recordlog/reader.rs go_next', 'record_buffer.clear() at the top of go_next (rediscovery; needs a crash, not a fault-free C07 violation)', 'DoNothing policy, torn multi-block append, reopen, append, reopen'),
  'C07_C': ('frame/reader.rs get_frame_header', 'end-of-log test on the checksum word only ("a CRC is never 0")', 'a payload crafted so that the frame CRC is 0'),
+ 'C08_A': ('frame/reader.rs read_frame', 'an unparseable header makes read_frame loop to the next block instead of returning Corruption (the quarantine is swallowed by the caller)', 'multi-frame entry in flight across the damaged block with lost bytes cancelling out'),
+ 'C08_B': ('frame/header.rs crc32/for_payload/check', 'checksum covers the len field instead of the frame-type byte', 'a one-bit flip of a non-first frame type plus a payload containing entry-looking bytes at that boundary'),
+ 'C08_C': ('recordlog/reader.rs go_next', 'match flattened into early returns, within_record resets lost', 'entry of >= 3 frames, payload damage in a middle frame, aligned item stride'),
+ 'C09_A': ('frame/reader.rs read_frame (+ is_at_tail helper)', 'a CRC mismatch is treated as a torn tail (NotAvailable, end of log) when the rest of the block is zero', 'damaged frame that is the last of its block with valid blocks after it'),
+ 'C09_B': ('mem/queues.rs ack_position', 'reset in place with truncate_head (cannot rewind) instead of remove + insert', 'queue deleted and re-created with damage exactly on the DeleteQueue frame'),
+ 'C09_C': ('recordlog/reader.rs go_next + read_record', 'two cooperating hunks: reset dropped on Corruption; undecodable entry reported as IoError(InvalidData)', 'entry of >= 3 frames with damage in a middle fragment: open fails'),
+ 'C10_A': ('frame/reader.rs read_frame', 'frame-fits test done before cursor += HEADER_LEN through num_bytes_to_end_of_block() (7 bytes too generous)', 'a header whose length ends the frame 1..=7 bytes past the block end'),
+ 'C10_B': ('rolling/directory.rs read_block', 'read_exact replaced by a hand-written read loop whose EOF arm only fires with nothing read: spins on a file ending mid-block', 'a WAL file whose length is not a multiple of 32 KiB, reached by replay'),
+ 'C10_C': ('rolling/directory.rs filename_to_position', 'split_at(4) before the prefix test (rediscovery)', 'a 24-byte stray name with a multi-byte character across byte 4'),
+ 'C11_A': ('rolling/directory.rs next_block', 'any open error on the LAST listed WAL file is treated as a crash leftover (end of log)', 'a multi-file WAL and an open error exactly on the newest file'),
+ 'C11_B': ('recordlog/reader.rs go_next', 'an I/O error hitting while an entry is being assembled is reported as Corruption', 'entry spanning a boundary and a transient I/O error when loading its tail'),
+ 'C11_C': ('rolling/directory.rs open_file + roll-over', 'open_file opens with create(true): a listed file that went missing is silently recreated empty', 'a non-first WAL file disappearing between listing and replay'),
+ 'C12_A': ('frame/header.rs crc32', 'one-shot crc32fast::hash(payload): frame type no longer under the CRC (rediscovery)', 'type byte damaged into another valid type in a multi-block batch with aligned items'),
+ 'C12_B': ('recordlog/reader.rs go_next', 'flattened match loses the within_record resets (rediscovery)', 'CRC damage in a non-first frame of a >= 3 frame batch'),
+ 'C12_C': ('frame/reader.rs get_frame_header', 'an undecodable header skips to the next block and returns that block\'s header instead of Corruption', 'type byte of a non-first frame damaged to an unknown value'),
+ 'C13_A': ('multi_record_log.rs append_records', 'retry/past guard compares with last_record() (None for an emptied queue) (rediscovery)', 'fully truncated queue + append with an explicit position in the past'),
+ 'C13_B': ('multi_record_log.rs append_records', 'empty-batch test moved before serialisation using size_hint().1 == Some(0)', 'an empty batch from an iterator with an inexact size hint'),
+ 'C13_C': ('multi_record_log.rs delete_queue', 'next_position(queue)? lookup dropped (position unused on replay): the only existence check before the WAL write', 'delete_queue on a missing queue: a DeleteQueue entry is written before the call is rejected'),
+ 'C14_A': ('rolling/directory.rs persist + roll_to_next_file helper', 'persist(FlushAndFsync) rolls over when the file is exactly full', 'a record ending exactly at the file end with an fsync-level persist at that moment'),
+ 'C14_B': ('multi_record_log.rs truncate', 'persist_on_policy inlined, GC only when the policy says persist', 'non-default policy + roll-over + a truncate freeing the oldest file'),
+ 'C14_C': ('persist_policy.rs update_persisted', 'next deadline advanced by whole intervals: divides by the interval', 'OnDelay with a zero interval: panic after the WAL write'),
+ 'C15_A': ('recordlog/writer.rs write_record', 'per-frame count computed as HEADER_LEN + payload instead of what write_frame returns (padding lost)', 'previous entry ending 1..6 bytes before a block boundary'),
+ 'C15_B': ('multi_record_log.rs truncate', 'an error of the GC pass is logged and ignored ("best effort")', 'an I/O fault in the unlink/fsync phase after position entries were appended'),
+ 'C15_C': ('multi_record_log.rs record_empty_queues_position', '`num_bytes_written = n` instead of `+=` while adding a trace line', 'a GC pass with two or more empty queues'),
+ 'C16_A': ('mem/queue.rs truncate_head', 'beyond-the-end branch drops the metas with mem::take and keeps the payload buffer', 'non-empty queue truncated strictly beyond its last record'),
+ 'C16_B': ('mem/queues.rs ack_position + MemQueue::reset', 'existing queue reset in place: metas cleared, payload buffer kept', 'a lost Truncate entry followed by a surviving RecordPosition at reopen'),
+ 'C16_C': ('mem/rolling_buffer.rs truncate_head + mem/queue.rs', 'buffer returns released bytes with an off-by-one bounds guard; queue rebases on it', 'a partial truncation after which every retained record has an empty payload'),
+ 'C17_A': ('rolling/directory.rs Directory::open', 'dir_entry.path().is_file() (follows symlinks) (rediscovery)', 'a symlink named like a WAL file'),
+ 'C17_B': ('rolling/directory.rs roll-over + open_or_create_file helper', 'roll-over unified through a helper opening with create(true): exclusive creation lost', 'a foreign (dangling) symlink named exactly as the next WAL file'),
+ 'C17_C': ('rolling/directory.rs filename_to_position', 'strip_prefix + parse without the ASCII digit test (rediscovery)', 'a foreign file named wal-+<19 digits>'),
 }
 
 ROUND = os.environ.get('SEED_ROUND', '1')
